@@ -7,7 +7,7 @@ use peppi::io::slippi;
 use serde_json::json;
 
 use crate::cols;
-use crate::expect::{compare, expected, same_cols, CmpOpts, ECols};
+use crate::expect::{compare, compare_cells, expected, same_cols, same_prefix, CmpOpts, ECols};
 use crate::gen::{Beh, Built};
 use crate::layout::LayoutDb;
 use crate::real::{self, Comp};
@@ -137,7 +137,7 @@ impl<'a> Ctx<'a> {
 		}
 	}
 
-	/// C01 (+C04 on the finished game): read, project, compare with the model, write back.
+	/// C01: read the file, write the game back, the bytes must be identical.
 	pub fn c01_roundtrip(&self, out: &mut Vec<Viol>) {
 		let cls = shape_class(self.beh);
 		let g = match real::read_slp_noopts(&self.built.bytes) {
@@ -147,11 +147,6 @@ impl<'a> Ctx<'a> {
 				return;
 			}
 		};
-		self.check_game_level("slp_read", &g, out);
-		let c = cols::from_immutable(&g.frames);
-		if let Some(m) = compare(&self.exp, &c, &CmpOpts { presence: true, rows: None, missing_ok_if_empty: false }) {
-			out.push(viol("slp_read_columns", &cls, "mismatch", m));
-		}
 		match real::write_slp(&g) {
 			Outcome::Ok(w) => {
 				if let Some(i) = first_diff(&w, &self.built.bytes) {
@@ -174,10 +169,84 @@ impl<'a> Ctx<'a> {
 		}
 	}
 
+	/// C03: every exposed column (in memory, Arrow view, row view) holds the value at the TLA+
+	/// offset of its field; the set of columns is the set of fields the version has.
+	pub fn c03_fields(&self, arrow_too: bool, rows_too: bool, out: &mut Vec<Viol>) {
+		let cls = shape_class(self.beh);
+		let g = match real::read_slp_noopts(&self.built.bytes) {
+			Outcome::Ok(g) => g,
+			o => {
+				out.push(outcome_viol("slp_read", &cls, &o));
+				return;
+			}
+		};
+		let c = cols::from_immutable(&g.frames);
+		if let Some(m) = compare(&self.exp, &c, &CmpOpts { presence: true, rows: None, missing_ok_if_empty: false }) {
+			out.push(viol("field_values", &cls, "mismatch", m));
+		}
+		if rows_too {
+			let n = GameTrait::len(&g);
+			match guard_plain(|| (0..n).map(|i| GameTrait::frame(&g, i)).collect::<Vec<_>>()) {
+				Outcome::Ok(rows) => {
+					let rc = cols::from_rows(&rows);
+					if let Some(m) = compare(&self.exp, &rc, &CmpOpts { presence: false, rows: None, missing_ok_if_empty: true }) {
+						out.push(viol("field_values_rowview", &cls, "mismatch", m));
+					}
+				}
+				o => out.push(viol("field_values_rowview", &cls, o.kind(), o.detail())),
+			}
+		}
+		if arrow_too {
+			let ver = g.start.slippi.version;
+			let ports = port_occupancy(&g.start);
+			match guard_plain(|| g.frames.into_struct_array(ver, &ports)) {
+				Outcome::Ok(arr) => match cols::from_struct_array(&arr) {
+					Ok(ac) => {
+						if let Some(m) = compare(&self.exp, &ac, &CmpOpts { presence: true, rows: None, missing_ok_if_empty: false }) {
+							out.push(viol("field_values_arrow", &cls, "mismatch", m));
+						}
+					}
+					Err(e) => out.push(viol("field_values_arrow", &cls, "mismatch", e)),
+				},
+				o => out.push(viol("field_values_arrow", &cls, o.kind(), o.detail())),
+			}
+		}
+	}
+
+	/// C04 on the finished game: rows, presence, cell placement and item grouping mirror the history.
+	pub fn c04_oneshot(&self, out: &mut Vec<Viol>) {
+		let cls = shape_class(self.beh);
+		let g = match real::read_slp_noopts(&self.built.bytes) {
+			Outcome::Ok(g) => g,
+			o => {
+				out.push(outcome_viol("slp_read", &cls, &o));
+				return;
+			}
+		};
+		let c = cols::from_immutable(&g.frames);
+		if let Some(m) = compare_cells(&self.exp, &c, None) {
+			out.push(viol("rows_mirror_history", &cls, "mismatch", m));
+		}
+	}
+
 	/// C04 / C12 / C13 (in-progress): drive the incremental API event by event.
-	pub fn incremental(&self, rows_too: bool, out: &mut Vec<Viol>) {
+	/// mode "c04": closed rows against the model (cell placement); "c12": every call against the
+	/// one-shot result for the same bytes, consumed-byte count, monotone row count;
+	/// "c13": the in-progress row view of every closed row against the in-progress columns.
+	pub fn incremental(&self, mode: &str, out: &mut Vec<Viol>) {
 		let cls = shape_class(self.beh);
 		let b = &self.built.bytes;
+		let oneshot = if mode == "c12" {
+			match real::read_slp_noopts(b) {
+				Outcome::Ok(g) => Some(cols::from_immutable(&g.frames)),
+				o => {
+					out.push(outcome_viol("slp_read", &cls, &o));
+					return;
+				}
+			}
+		} else {
+			None
+		};
 		let mut r = Cursor::new(&b[..]);
 		let hdr = guard(|| slippi::de::parse_header(&mut r, None));
 		let raw_len = match hdr {
@@ -238,30 +307,80 @@ impl<'a> Ctx<'a> {
 			}
 			last_rows = frames.len();
 			let c = cols::from_mutable(frames);
-			if let Some(m) = compare(&self.exp, &c, &CmpOpts { presence: true, rows: Some(closed), missing_ok_if_empty: false }) {
-				out.push(viol("inc_columns", &cls, "mismatch", format!("after event {} ({} closed rows): {}", k + 1, closed, m)));
-				return;
-			}
-			if rows_too && closed > 0 {
-				let rows = guard_plain(|| (0..closed).map(|i| GameTrait::frame(&st, i)).collect::<Vec<_>>());
-				match rows {
-					Outcome::Ok(rows) => {
-						let rc = cols::from_rows(&rows);
-						if let Some(m) = compare(&self.exp, &rc, &CmpOpts { presence: false, rows: Some(closed), missing_ok_if_empty: true }) {
-							out.push(viol("inc_rowview", &cls, "mismatch", format!("after event {}: {}", k + 1, m)));
-							return;
-						}
-					}
-					o => {
-						out.push(viol("inc_rowview", &cls, o.kind(), o.detail()));
+			match mode {
+				"c04" => {
+					if let Some(m) = compare_cells(&self.exp, &c, Some(closed)) {
+						out.push(viol("inc_rows_mirror_history", &cls, "mismatch", format!("after event {} ({} closed rows): {}", k + 1, closed, m)));
 						return;
 					}
 				}
+				"c12" => {
+					if let Some(m) = same_prefix(oneshot.as_ref().unwrap(), &c, closed, true) {
+						out.push(viol("inc_vs_oneshot", &cls, "mismatch", format!("after event {} ({} completed rows): {}", k + 1, closed, m)));
+						return;
+					}
+				}
+				"c13" => {
+					if closed > 0 {
+						match guard_plain(|| (0..closed).map(|i| GameTrait::frame(&st, i)).collect::<Vec<_>>()) {
+							Outcome::Ok(rows) => {
+								if let Some(m) = rows_vs_cols(&cols::from_rows(&rows), &c, closed) {
+									out.push(viol("inc_rowview", &cls, "mismatch", format!("after event {}: {}", k + 1, m)));
+									return;
+								}
+							}
+							o => {
+								out.push(viol("inc_rowview", &cls, o.kind(), o.detail()));
+								return;
+							}
+						}
+					}
+				}
+				_ => panic!("incremental mode {}", mode),
+			}
+		}
+		if mode == "c12" {
+			// metadata through the incremental API, then the whole game equals the one-shot game
+			let tail = guard(|| -> peppi::io::Result<()> {
+				use std::io::Read;
+				let mut b1 = [0u8; 1];
+				// skip a duplicated Game End / junk inside the raw element, as the one-shot reader does
+				let pos = r.position() as usize;
+				if pos < self.built.raw_end {
+					r.set_position(self.built.raw_end as u64);
+				}
+				r.read_exact(&mut b1)?;
+				if b1[0] == 0x55 {
+					slippi::de::parse_metadata(&mut r, &mut st, None)?;
+				}
+				Ok(())
+			});
+			if !tail.is_ok() {
+				out.push(viol("inc_metadata", &cls, tail.kind(), tail.detail()));
+				return;
+			}
+			match real::read_slp_noopts(b) {
+				Outcome::Ok(g) => {
+					if GameTrait::metadata(&st) != &g.metadata {
+						out.push(viol("inc_vs_oneshot", &cls, "mismatch", "metadata differs".into()));
+					}
+					if GameTrait::end(&st).as_ref().map(|e| &e.bytes.0) != g.end.as_ref().map(|e| &e.bytes.0) {
+						out.push(viol("inc_vs_oneshot", &cls, "mismatch", "game end differs".into()));
+					}
+					if GameTrait::start(&st) != &g.start {
+						out.push(viol("inc_vs_oneshot", &cls, "mismatch", "game start differs".into()));
+					}
+					if GameTrait::gecko_codes(&st) != &g.gecko_codes {
+						out.push(viol("inc_vs_oneshot", &cls, "mismatch", "gecko codes differ".into()));
+					}
+				}
+				o => out.push(outcome_viol("slp_read", &cls, &o)),
 			}
 		}
 	}
 
-	/// C13 (finished representation): the row view of every row equals the columns.
+	/// C13 (finished representation): the row view of every row equals the columns at that index;
+	/// version-absent fields are reported as absent; items are the slice between the row's offsets.
 	pub fn rowview(&self, out: &mut Vec<Viol>) {
 		let cls = shape_class(self.beh);
 		let g = match real::read_slp_noopts(&self.built.bytes) {
@@ -272,8 +391,9 @@ impl<'a> Ctx<'a> {
 			}
 		};
 		let n = GameTrait::len(&g);
-		if n != self.beh.fin.ids.len() {
-			out.push(viol("rowview_len", &cls, "mismatch", format!("len {} model {}", n, self.beh.fin.ids.len())));
+		let colsv = cols::from_immutable(&g.frames);
+		if colsv.leaves["id"].vals.len() != n {
+			out.push(viol("rowview_len", &cls, "mismatch", format!("len() {} but {} frame ids", n, colsv.leaves["id"].vals.len())));
 			return;
 		}
 		let ver = g.start.slippi.version;
@@ -281,42 +401,32 @@ impl<'a> Ctx<'a> {
 		let rows2 = guard_plain(|| (0..n).map(|i| g.frames.transpose_one(i, ver)).collect::<Vec<_>>());
 		match (rows, rows2) {
 			(Outcome::Ok(rows), Outcome::Ok(rows2)) => {
-				if rows != rows2 {
-					// NaN != NaN under PartialEq: compare via bit patterns instead
-					if cols::from_rows(&rows) != cols::from_rows(&rows2) {
-						out.push(viol("rowview", &cls, "mismatch", "Game::frame differs from Frame::transpose_one".into()));
-					}
-				}
 				let rc = cols::from_rows(&rows);
-				if let Some(m) = compare(&self.exp, &rc, &CmpOpts { presence: false, rows: None, missing_ok_if_empty: true }) {
+				if rc != cols::from_rows(&rows2) {
+					out.push(viol("rowview", &cls, "mismatch", "Game::frame differs from Frame::transpose_one".into()));
+				}
+				if let Some(m) = rows_vs_cols(&rc, &colsv, n) {
 					out.push(viol("rowview", &cls, "mismatch", m));
 				}
-				// the ports listed in each row are the occupied ports in order
-				let want: Vec<String> = self
-					.beh
-					.occ
-					.iter()
-					.enumerate()
-					.filter(|(_, o)| *o != "none")
-					.map(|(p, _)| self.db.blocks.ports[p].clone())
-					.collect();
+				// structure of each row: the game's ports in order, follower exactly for two-character ports
 				for (i, fr) in rows.iter().enumerate() {
 					let got: Vec<String> = fr.ports.iter().map(|p| format!("{}", p.port)).collect();
+					let want: Vec<String> = g.frames.ports.iter().map(|p| format!("{}", p.port)).collect();
 					if got != want {
 						out.push(viol("rowview", &cls, "mismatch", format!("row {} ports {:?} expected {:?}", i, got, want)));
 						break;
 					}
-					for (p, pd) in fr.ports.iter().enumerate() {
-						let pi = self.beh.occ.iter().enumerate().filter(|(_, o)| *o != "none").nth(p).unwrap().0;
-						if pd.follower.is_some() != (self.beh.occ[pi] == "ic") {
-							out.push(viol("rowview", &cls, "mismatch", format!("row {} port {} follower presence", i, pi)));
+					for (pd, cp) in fr.ports.iter().zip(g.frames.ports.iter()) {
+						if pd.follower.is_some() != cp.follower.is_some() {
+							out.push(viol("rowview", &cls, "mismatch", format!("row {} port {} follower presence", i, pd.port)));
 						}
 					}
-					if fr.start.is_some() != self.exp.leaves.contains_key("start.random_seed") {
-						out.push(viol("rowview", &cls, "mismatch", format!("row {} start presence", i)));
-					}
-					if fr.items.is_some() != self.exp.item_off.is_some() || fr.end.is_some() != self.exp.item_off.is_some() {
-						out.push(viol("rowview", &cls, "mismatch", format!("row {} end/items presence", i)));
+					if fr.start.is_some() != g.frames.start.is_some()
+						|| fr.end.is_some() != g.frames.end.is_some()
+						|| fr.items.is_some() != g.frames.item.is_some()
+					{
+						out.push(viol("rowview", &cls, "mismatch", format!("row {} start/end/items presence", i)));
+						break;
 					}
 				}
 			}
@@ -376,8 +486,9 @@ impl<'a> Ctx<'a> {
 				if let Some(m) = same_cols(&mem, &ac, true) {
 					out.push(viol("arrow_values", &cls, "mismatch", format!("exported vs in-memory: {}", m)));
 				}
-				if let Some(m) = compare(&self.exp, &ac, &CmpOpts { presence: true, rows: None, missing_ok_if_empty: false }) {
-					out.push(viol("arrow_values", &cls, "mismatch", m));
+				// validity bits mark exactly the absent characters of the history
+				if ac.present != self.exp.present {
+					out.push(viol("arrow_validity", &cls, "mismatch", "validity bits differ from the characters' presence in the history".into()));
 				}
 			}
 			Err(e) => out.push(viol("arrow_values", &cls, "mismatch", e)),
@@ -436,11 +547,6 @@ impl<'a> Ctx<'a> {
 			}
 			if g2.quirks.map_or(false, |q| q.double_game_end) != quirk {
 				out.push(viol("slpp_quirks", &cc, "mismatch", "double_game_end lost".into()));
-			}
-			self.check_game_level("slpp_read", &g2, out);
-			let c = cols::from_immutable(&g2.frames);
-			if let Some(m) = compare(&self.exp, &c, &CmpOpts { presence: true, rows: None, missing_ok_if_empty: false }) {
-				out.push(viol("slpp_read_columns", &cc, "mismatch", m));
 			}
 			match real::write_slp(&g2) {
 				Outcome::Ok(w) => {
@@ -552,4 +658,53 @@ pub fn replay_record(beh: &Beh, built: &Built, seed: u64, plan: u8) -> serde_jso
 		"ver": built.ver, "seed": seed, "plan": plan,
 		"bytes_hex": crate::util::hex(&built.bytes),
 	})
+}
+
+/// Row views re-assembled into columns against the real columns, for the first `n` rows:
+/// every column the representation has must be reported by the row view with the same values
+/// (a version-absent field is a column the representation does not have, and the row view must
+/// report it as absent); items are the slice delimited by the row's offsets.
+pub fn rows_vs_cols(rc: &cols::Cols, c: &cols::Cols, n: usize) -> Option<String> {
+	let nitems = c.item_off.as_ref().map(|o| o.get(n).copied().unwrap_or(0) as usize).unwrap_or(0);
+	for (k, col) in &c.leaves {
+		let lim = if k.starts_with("item.") { nitems } else { n };
+		if lim == 0 {
+			continue;
+		}
+		match rc.leaves.get(k) {
+			None => return Some(format!("row view lacks {}", k)),
+			Some(r) => {
+				if r.ty != col.ty {
+					return Some(format!("row view {}: type {} vs {}", k, r.ty, col.ty));
+				}
+				if r.vals.len() < lim || col.vals.len() < lim {
+					return Some(format!("row view {}: {} values, columns {} (need {})", k, r.vals.len(), col.vals.len(), lim));
+				}
+				for i in 0..lim {
+					if r.vals[i] != col.vals[i] {
+						return Some(format!("row view {} index {}: {:#x}, column holds {:#x}", k, i, r.vals[i], col.vals[i]));
+					}
+				}
+				if r.vals.len() != lim {
+					return Some(format!("row view {}: {} values for {} rows/items", k, r.vals.len(), lim));
+				}
+			}
+		}
+	}
+	for k in rc.leaves.keys() {
+		if !c.leaves.contains_key(k) {
+			return Some(format!("row view reports {} which the columns do not have", k));
+		}
+	}
+	match (&rc.item_off, &c.item_off) {
+		(Some(r), Some(o)) => {
+			if o.len() < n + 1 || r[..] != o[..n + 1] {
+				return Some(format!("row view item grouping {:?} vs offsets {:?}", r, &o[..(n + 1).min(o.len())]));
+			}
+		}
+		(None, Some(_)) if n == 0 => {}
+		(None, None) => {}
+		(r, o) => return Some(format!("row view items {:?} vs offsets {:?}", r.is_some(), o.is_some())),
+	}
+	None
 }
